@@ -119,6 +119,18 @@ type pstate struct {
 	visited map[*ssa.BasicBlock]bool
 }
 
+// pos returns the position of an instruction on the path (block order ×
+// instruction index), if its block has been entered.
+func (s *pstate) pos(in ssa.Instruction) (int, bool) {
+	b := in.Block()
+	for bi := len(s.blocks) - 1; bi >= 0; bi-- {
+		if s.blocks[bi] == b {
+			return bi*100000 + InstrBlockIndex(in), true
+		}
+	}
+	return 0, false
+}
+
 func (s *pstate) clone() *pstate {
 	n := &pstate{atoms: append([]PathAtom{}, s.atoms...), blocks: append([]*ssa.BasicBlock{}, s.blocks...), visited: map[*ssa.BasicBlock]bool{}}
 	for k := range s.visited {
@@ -128,7 +140,7 @@ func (s *pstate) clone() *pstate {
 }
 
 func (c *seeCtx) clone() *seeCtx {
-	n := &seeCtx{x: c.x, depth: c.depth, params: c.params, fvs: c.fvs, stack: c.stack,
+	n := &seeCtx{x: c.x, depth: c.depth, params: c.params, fvs: c.fvs, stack: c.stack, ps: c.ps,
 		active: map[ssa.Value]bool{}, memo: make(map[ssa.Value]*Expr, len(c.memo))}
 	for k, v := range c.memo {
 		n.memo[k] = v
@@ -138,6 +150,7 @@ func (c *seeCtx) clone() *seeCtx {
 
 func (pe *pathEnum) walk(c *seeCtx, fn *ssa.Function, emit func(*Path)) {
 	st := &pstate{visited: map[*ssa.BasicBlock]bool{}}
+	c.ps = st
 	pe.block(c, fn.Blocks[0], nil, st, emit)
 }
 
@@ -224,6 +237,7 @@ func (pe *pathEnum) instrs(c *seeCtx, b *ssa.BasicBlock, i int, st *pstate, emit
 					any = true
 					c2 := c.clone()
 					st2 := st.clone()
+					c2.ps = st2
 					st2.atoms = append(st2.atoms, cp.Atoms...)
 					st2.blocks = append(st2.blocks, cp.Blocks...)
 					if len(cp.Results) == 1 {
@@ -255,6 +269,7 @@ func (pe *pathEnum) instrs(c *seeCtx, b *ssa.BasicBlock, i int, st *pstate, emit
 				c2, st2 := c, st
 				if k == 0 {
 					c2, st2 = c.clone(), st.clone()
+					c2.ps = st2
 				}
 				st2.atoms = append(st2.atoms, PathAtom{cond, k == 0, t})
 				if infeasible(st2.atoms) {
@@ -365,7 +380,9 @@ func isNum(v constant.Value) bool {
 
 // pure reports whether e contains no calls (so equal strings mean equal values).
 func pure(e *Expr) bool {
-	return !e.Contains(func(x *Expr) bool { return x.Op == OpCall || x.Op == OpRecv || x.Op == OpUnknown || x.Op == OpLoop })
+	return !e.Contains(func(x *Expr) bool {
+		return x.Op == OpCall || x.Op == OpRecv || x.Op == OpUnknown || (x.Op == OpLoop && x.Idx == 0)
+	})
 }
 
 // isLoopHeader reports whether b has an incoming back edge.
